@@ -420,7 +420,7 @@ class SchemaVisitor:
             else:
                 xsd_type = xsd_types.AnyType()
 
-        nillable = node.get("nillable") == "true"
+        nillable = node.get("nillable") in ("true", "1")
         default = node.get("default")
         element = xsd_elements.Element(
             name=qname,
